@@ -39,13 +39,14 @@ theorem wonOn_winner (s : St) (hi : Inv s) (t p : Nat) (th : Th) (ht : s.th[t]? 
     subst hw; simpa using hok.2.1
 
 /-- **set_once.** Of all `SetResult` calls on one promise at most one wins the swap (two calls that
-won are the same call), and a call that lost did so against a call that won: there is exactly one
-winner as soon as any call got its answer. -/
+won are the same call), and a call that lost did so against a call that won — or the promise was
+constructed pre-resolved (`NewPromiseWithErr`): there is exactly one winner as soon as any call on an
+ordinary promise got its answer. -/
 theorem set_once (es : List Ev) (s : St) (h : model.run model.init es = some s) (p : Nat) :
     (∀ (t u : Nat) (a b : Th), s.th[t]? = some a → s.th[u]? = some b →
         a.ts.wonOn p = true → b.ts.wonOn p = true → t = u) ∧
     (∀ (t : Nat) (a : Th), s.th[t]? = some a → a.ts.lostOn p = true →
-        ∃ (w : Nat) (b : Th), w ≠ t ∧ s.th[w]? = some b ∧ b.ts.wonOn p = true) := by
+        (∃ (w : Nat) (b : Th), w ≠ t ∧ s.th[w]? = some b ∧ b.ts.wonOn p = true) ∨ bornOf s p = true) := by
   have hi := reachable_inv es s h
   constructor
   · intro t u a b ht hu wa wb
@@ -63,20 +64,24 @@ theorem set_once (es : List Ev) (s : St) (h : model.run model.init es = some s) 
       | none => simp [hp] at hw
       | some pr =>
         simp [hp] at hw
-        obtain ⟨b, hb, hws⟩ := (hi.pr p pr hp).2 w hw
+        obtain ⟨b, hb, hws⟩ := (hi.pr p pr hp).2.2 w hw
         refine ⟨w, b, hne, hb, ?_⟩
         rcases hws with ⟨e, h⟩ | ⟨e, h⟩ | ⟨e, h⟩ <;> simp [h, TS.wonOn]
     cases hts : a.ts <;> simp only [hts, TS.lostOn] at hl hok <;> try (cases hl)
     · rename_i p' v e b
       cases b <;> simp at hl
       subst hl
-      obtain ⟨w, hw, hne⟩ := by simpa using hok.2
-      exact key w hw hne
+      rcases (by simpa using hok.2 : (∃ w, winnerOf s p' = some w ∧ w ≠ t) ∨ bornOf s p' = true) with
+        ⟨w, hw, hne⟩ | hb
+      · exact Or.inl (key w hw hne)
+      · exact Or.inr hb
     · rename_i p' v e b
       cases b <;> simp at hl
       subst hl
-      obtain ⟨w, hw, hne⟩ := by simpa using hok.2
-      exact key w hw hne
+      rcases (by simpa using hok.2 : (∃ w, winnerOf s p' = some w ∧ w ≠ t) ∨ bornOf s p' = true) with
+        ⟨w, hw, hne⟩ | hb
+      · exact Or.inl (key w hw hne)
+      · exact Or.inr hb
 
 /-- **await_result (plain promise).** An await that completes by result (value ≥ 1; `0` is the zero
 value of the other ways to return) returns exactly the value and error passed by the winning
@@ -91,7 +96,7 @@ theorem await_result (es : List Ev) (s : St) (h : model.run model.init es = some
   have hok := hi.th t th ht
   have hpub : published s (.plain p) = some (v, e) := by
     unfold ThOK at hok
-    rcases hts with hts | hts <;> simp only [hts] at hok <;> rcases hok with ⟨_, h2⟩ | ⟨h2, _⟩
+    rcases hts with hts | hts <;> simp only [hts] at hok <;> rcases hok with h2 | ⟨h2, _⟩
     · exact h2
     · omega
     · exact h2
@@ -102,8 +107,14 @@ theorem await_result (es : List Ev) (s : St) (h : model.run model.init es = some
   | none => simp [hp] at hpub
   | some pr =>
     simp [hp] at hpub
-    obtain ⟨h1, h2⟩ := hi.pr p pr hp
-    have hw := (h1 v e hpub).1
+    obtain ⟨h1, h1b, h2⟩ := hi.pr p pr hp
+    have hbf : pr.born = false := by
+      cases hb : pr.born with
+      | false => rfl
+      | true =>
+        obtain ⟨_, e0, he0⟩ := h1b hb
+        rw [hpub] at he0; cases he0; omega
+    have hw := (h1 v e hpub hbf).1
     refine ⟨by simp [winnerOf, hp, hw], ?_⟩
     obtain ⟨w, hwt, hws⟩ := h2 (v - 1) hw
     refine ⟨w, hwt, ?_⟩
@@ -132,6 +143,27 @@ theorem container_await_result (es : List Ev) (s : St) (h : model.run model.init
   · omega
   · exact h2
   · omega
+
+/-- **a promise born resolved (`NewPromiseWithErr(e)`).** It holds `(zero, e)` from the start; every
+`SetResult` on it loses its swap (and will return false); the result branch of every await's select
+is enabled at once and returns the stored pair. -/
+theorem born_resolved (es : List Ev) (s : St) (h : model.run model.init es = some s) (p : Nat)
+    (hb : bornOf s p = true) :
+    (∃ e, published s (.plain p) = some (0, e)) ∧
+    (∀ (t v : Nat) (e : Err) (th : Th) (s' : St), s.th[t]? = some th → th.ts = .setInv p v e →
+        step s (.swap t) = some s' → ∃ th', s'.th[t]? = some th' ∧ th'.ts = .setRet p v e false) := by
+  have hi := reachable_inv es s h
+  simp only [bornOf] at hb
+  cases hp : s.proms[p]? with
+  | none => simp [hp] at hb
+  | some pr =>
+    simp [hp] at hb
+    obtain ⟨_, e0, he0⟩ := (hi.pr p pr hp).2.1 hb
+    refine ⟨⟨e0, by simp [published, hp, he0]⟩, ?_⟩
+    intro t v e th s' ht hts hs
+    simp [step, ht, hts, hp, hb] at hs
+    subst hs
+    exact ⟨{ th with ts := .setRet p v e false }, by simp [setTs, lt_of_getElem? ht], rfl⟩
 
 /-! ## liveness of a plain await: enabled exactly when there is something to return -/
 
